@@ -17,7 +17,37 @@ type ConcCase struct {
 	Tmpl string
 }
 
+// ConcurrentLookalikePackage: concurrent programs just outside the supported subset (go statements with
+// arguments, bare returns inside a goroutine body). goose may reject each case; an accepted case must
+// behave like the Go program. Every case is schedule-independent.
+func ConcurrentLookalikePackage(name string) *ConcPackage {
+	var b strings.Builder
+	fmt.Fprintf(&b, "package %s\n\nimport (\n\t\"sync\"\n)\n\nfunc keepSync() *sync.Mutex {\n\treturn new(sync.Mutex)\n}\n\n", name)
+	cp := &ConcPackage{Package: &Package{Name: name, Features: map[string]int{}}, Info: map[string]ConcCase{}, MayReject: true}
+	add := func(tmpl, body string) {
+		cn := fmt.Sprintf("case_l%d", len(cp.Cases))
+		fmt.Fprintf(&b, "func %s() uint64 {\n%s}\n\n", cn, body)
+		cp.Cases = append(cp.Cases, cn)
+		cp.Info[cn] = ConcCase{Name: cn, Det: true, Tmpl: tmpl}
+		cp.Features["conc-"+tmpl]++
+	}
+	pre := "\twg := new(sync.WaitGroup)\n\tout := new(uint64)\n\twg.Add(1)\n"
+	add("go-arg-same-name-var", pre+"\tvar x uint64 = 7\n\tgo func(x uint64) {\n\t\t*out = *out + x\n\t\twg.Done()\n\t}(x)\n\tx = x + 100\n\twg.Wait()\n\treturn *out*1000 + x\n")
+	add("go-arg-same-name-define", pre+"\tx := uint64(7)\n\tgo func(x uint64) {\n\t\t*out = *out + x\n\t\twg.Done()\n\t}(x)\n\twg.Wait()\n\treturn *out*1000 + x\n")
+	add("go-arg-expression-shadowing-later-use", pre+"\tticket := uint64(7)\n\tgo func(ticket uint64) {\n\t\t*out = *out + ticket\n\t\twg.Done()\n\t}(ticket + 1)\n\twg.Wait()\n\treturn *out*100 + ticket\n")
+	add("go-two-args-rotated", pre+"\tcur := uint64(5)\n\tprev := uint64(1)\n\tgo func(cur uint64, prev uint64) {\n\t\t*out = cur*10 + prev\n\t\twg.Done()\n\t}(cur+1, cur)\n\twg.Wait()\n\treturn *out + cur + prev\n")
+	add("go-arg-loop-variable", "\twg := new(sync.WaitGroup)\n\tmu := new(sync.Mutex)\n\tout := new(uint64)\n\twg.Add(3)\n\tfor i := uint64(0); i < 3; i++ {\n\t\tgo func(i uint64) {\n\t\t\tmu.Lock()\n\t\t\t*out = *out + i*i + 1\n\t\t\tmu.Unlock()\n\t\t\twg.Done()\n\t\t}(i)\n\t}\n\twg.Wait()\n\treturn *out\n")
+	add("go-bare-return-in-range", pre+"\txs := make([]uint64, 4)\n\txs[0] = 3\n\txs[1] = 4\n\txs[2] = 0\n\txs[3] = 5\n\tgo func() {\n\t\tfor _, v := range xs {\n\t\t\tif v == 0 {\n\t\t\t\twg.Done()\n\t\t\t\treturn\n\t\t\t}\n\t\t\t*out = *out + v\n\t\t}\n\t\twg.Done()\n\t}()\n\twg.Wait()\n\treturn *out\n")
+	add("go-bare-return-in-nested-if", pre+"\tlevel := uint64(2)\n\tgo func() {\n\t\tif level > 0 {\n\t\t\tif level > 1 {\n\t\t\t\twg.Done()\n\t\t\t\treturn\n\t\t\t}\n\t\t\t*out = *out + 10\n\t\t}\n\t\t*out = *out + 1\n\t\twg.Done()\n\t}()\n\twg.Wait()\n\treturn *out\n")
+	add("go-bare-return-early-exit", pre+"\tlevel := uint64(2)\n\tgo func() {\n\t\tif level > 1 {\n\t\t\twg.Done()\n\t\t\treturn\n\t\t}\n\t\t*out = *out + 1\n\t\twg.Done()\n\t}()\n\twg.Wait()\n\treturn *out\n")
+	add("go-named-function-with-args", pre+"\tv := uint64(9)\n\tgo addDone(wg, out, v+1)\n\twg.Wait()\n\treturn *out\n")
+	b.WriteString("func addDone(wg *sync.WaitGroup, out *uint64, v uint64) {\n\t*out = *out + v\n\twg.Done()\n}\n")
+	cp.Source = b.String()
+	return cp
+}
+
 type ConcPackage struct {
+	MayReject bool // look-alike programs: goose may reject a case (then it is not compared)
 	*Package
 	Info map[string]ConcCase // case name -> info
 }
